@@ -58,10 +58,13 @@ class GopherPlusProtocol(GopherProtocol):
                 )
             else:
                 handler.prepare()
-                self.wfile.write(f"+{self.entry.getsize(-2)}\r\n".encode())
                 if handler.isdir():
+                    # The size of a menu is not known in advance (and is never
+                    # the size of the file or directory it is generated from).
+                    self.wfile.write(b"+-2\r\n")
                     self.writedir(self.entry, handler.getdirlist())
                 else:
+                    self.wfile.write(f"+{self.entry.getsize(-2)}\r\n".encode())
                     handler.write(self.wfile)
         except GopherExceptions.FileNotFound as e:
             self.filenotfound(str(e))
